@@ -192,8 +192,15 @@ func runGrp(t *testing.T, tk []string) string {
 	for i := range ports {
 		ports[i] = base + i
 	}
-	cluster, err := kfake.NewCluster(kfake.NumBrokers(brokers), kfake.Ports(ports...), kfake.SeedTopics(int32(parts), "t"),
-		kfake.ListenFn(net.ListenFn))
+	copts := []kfake.Opt{kfake.NumBrokers(brokers), kfake.Ports(ports...), kfake.SeedTopics(int32(parts), "t"), kfake.ListenFn(net.ListenFn)}
+	slowRevoke := false
+	if bal == 4 && seed%2 == 0 {
+		// KIP-848 with a short broker-side heartbeat interval and revoke callbacks that outlast it: the member keeps
+		// heartbeating while it revokes, and the coordinator must not hand the partitions on before the callback is done
+		copts = append(copts, kfake.BrokerConfigs(map[string]string{"group.consumer.heartbeat.interval.ms": "200"}))
+		slowRevoke = true
+	}
+	cluster, err := kfake.NewCluster(copts...)
 	if err != nil {
 		return "ERR:cluster:" + err.Error()
 	}
@@ -278,7 +285,9 @@ func runGrp(t *testing.T, tk []string) string {
 			}),
 			kgo.OnPartitionsRevoked(func(_ context.Context, _ *kgo.Client, ps map[string][]int32) {
 				log.Add("Rs:%d:%s", m, partsStr(ps))
-				if wr.Chance(30) {
+				if slowRevoke && wr.Chance(50) {
+					time.Sleep(time.Duration(250+wr.Intn(600)) * time.Millisecond)
+				} else if wr.Chance(30) {
 					time.Sleep(time.Duration(wr.Intn(40)) * time.Millisecond)
 				}
 				log.Add("Re:%d", m)
